@@ -120,6 +120,13 @@ func TestWorker(t *testing.T) {
 		res.Error = "unknown profile " + spec.Profile
 		return
 	}
+	rw := newRaceWatch()
+	defer func() {
+		if rw != nil {
+			res.Probes["race-reports-total"] += rw.Total
+			res.Probes["race-reports-harness-noise"] += rw.Noise
+		}
+	}()
 	res.Rule = prof.Rule
 	res.Expect = prof.ExpectProbes
 	start := time.Now()
@@ -134,6 +141,7 @@ func TestWorker(t *testing.T) {
 		for _, or := range prof.Oracles {
 			viol = append(viol, or(out)...)
 		}
+		viol = append(viol, rw.poll()...)
 		res.Runs++
 		res.Steps += out.Hist.Steps
 		res.SimMs += out.Hist.EndT
@@ -195,6 +203,7 @@ func TestWorker(t *testing.T) {
 				for _, or := range prof.Oracles {
 					viol = append(viol, or(out)...)
 				}
+				viol = append(viol, rw.poll()...)
 				for _, v := range viol {
 					br.Kinds = append(br.Kinds, v.Property+"/"+v.Kind)
 				}
